@@ -84,26 +84,7 @@ theorem insertLeaf_spec (cfg : Cfg) (cap : Nat) (hcap : 4 ≤ cap) (l : Leaf K V
   have htl : toList 0 (l : Tree K V 0) = l.keys.zip l.vals := toList_zero _
   -- the key-absent part, shared by the two shapes of `keys[i]?`
   have absent : (∀ k', l.keys[lowerBound l.keys k]? = some k' → ord k' ≠ ord k) →
-      ∃ res ev, (if l.keys.length ≥ cap then
-          (let tk := insertAt l.keys (lowerBound l.keys k) k
-           let tv := insertAt l.vals (lowerBound l.keys k) v
-           let mid := cap / 2
-           let rn := cap + 1 - mid
-           if tk.length > cap + 1 ∨ tv.length > cap + 1 then Res.ub
-           else if mid > cap ∨ rn > cap then Res.ub
-           else if mid + rn > tk.length ∨ mid + rn > tv.length then Res.ub
-           else
-             let rk := (tk.drop mid).take rn
-             let rv := (tv.drop mid).take rn
-             match rk.head? with
-             | none => Res.ub
-             | some sep =>
-               let moved : List (Obj K V) := if cfg.legacyRefs then (tk.map .key ++ tv.map .val) else [.key k, .val v]
-               Res.ok (InsRes.split ({ id := l.id, keys := tk.take mid, vals := tv.take mid, next := nid } : Leaf K V)
-                           ({ id := nid, keys := rk, vals := rv, next := l.next } : Leaf K V) sep,
-                    ({ inc := moved ++ [.key sep] } : Evs K V)))
-        else Res.ok (InsRes.inserted ({ l with keys := insertAt l.keys (lowerBound l.keys k) k, vals := insertAt l.vals (lowerBound l.keys k) v } : Leaf K V),
-                     ({ inc := [.key k, .val v] } : Evs K V))) = .ok (res, ev) ∧
+      ∃ res ev, insertLeafAbsent cfg cap l k v nid (lowerBound l.keys k) = .ok (res, ev) ∧
         InsPost cap 0 lo hi (l : Tree K V 0) k v res ∧
         PLinkIns (links 0 (l : Tree K V 0)) res.links nid (match res with | .split _ _ _ => nid + 1 | _ => nid) := by
     intro hnf
@@ -129,9 +110,12 @@ theorem insertLeaf_spec (cfg : Cfg) (cap : Nat) (hcap : 4 ≤ cap) (l : Leaf K V
     have hEl : (insertAt l.keys (lowerBound l.keys k) k).length = (insertAt l.vals (lowerBound l.keys k) v).length := by
       rw [length_insertAt _ _ _ hi_le, length_insertAt _ _ _ hiv_le, hl]
     have hElen : (insertAt l.keys (lowerBound l.keys k) k).length = l.keys.length + 1 := length_insertAt _ _ _ hi_le
+    unfold insertLeafAbsent
     by_cases hfull : l.keys.length ≥ cap
     · have hn : l.keys.length = cap := by omega
       simp only [hfull, if_true]
+      unfold splitLeaf
+      simp only []
       have g1 : ¬ ((insertAt l.keys (lowerBound l.keys k) k).length > cap + 1 ∨ (insertAt l.vals (lowerBound l.keys k) v).length > cap + 1) := by
         rw [← hEl, hElen]; omega
       have g2 : ¬ (cap / 2 > cap ∨ cap + 1 - cap / 2 > cap) := by omega
